@@ -175,7 +175,7 @@ func runC03(h *hx.H) {
 				baseSpans = append(baseSpans, [4]int{a, b})
 			}
 		}
-		forEachLayout(skel, c03Trivia, dev, win, func(text string, slots map[int]string) {
+		forEachLayout(skel, c03Trivia, dev, win, func(text string, slots map[int]string, _ func(map[int]string) string) {
 			idx, run := h.NextN()
 			if !run || !baseOK {
 				return
